@@ -89,11 +89,11 @@ func putPrefixedBytes(buf []byte, s []byte) int {
 
 func skipReader(r io.Reader, n int64) error {
 	if rs, ok := r.(io.ReadSeeker); ok {
-		_, err := rs.Seek(n, io.SeekCurrent)
-		if err != nil {
-			return err
+		// having a Seek method does not mean seeking works: an *os.File may be a pipe or a
+		// terminal. If it fails nothing was consumed, and the bytes are read past instead.
+		if _, err := rs.Seek(n, io.SeekCurrent); err == nil {
+			return nil
 		}
-		return nil
 	}
 	_, err := io.CopyN(io.Discard, r, n)
 	if err != nil {
